@@ -290,6 +290,18 @@ class G:
             i += 1
             self.gen_type(i, kind='newtype-enum', fixed_fields=[t])
             i += 1
+        # ... and so does every std type with a built-in impl (as array element, dictionary value
+        # and inside a newtype variant)
+        stds = STD[:]
+        r.shuffle(stds)
+        for a, b in zip(stds[0::2], stds[1::2]):
+            ta, tb = Ty(a[0], a[1]), Ty(b[0], b[1])
+            self.gen_type(i, kind='named-struct', fixed_fields=[
+                Ty(f'Vec<{ta.rust}>', 'a' + ta.sig), Ty(f'HashMap<String, {tb.rust}>', 'a{s' + tb.sig + '}'),
+                Ty(f'Vec<{tb.rust}>', 'a' + tb.sig), Ty(f'({ta.rust}, Vec<({tb.rust}, u8)>)', '(' + ta.sig + 'a(' + tb.sig + 'y))')])
+            i += 1
+            self.gen_type(i, kind='newtype-enum', fixed_fields=[r.choice([ta, tb])])
+            i += 1
         o = self.out
         o.append('pub fn types() -> Vec<TypeEntry> {')
         o.append('    vec![')
